@@ -10,8 +10,18 @@ package linux
 //vc:  requires[C11] !isCompareRun || pass == loginPass
 //vc:func (*State).ApplyCommands
 //vc:  requires[C11] !isCompareRun
+//vc:  invariant[C09] 1 "for _, c := range ch.routes" accepted == old(accepted) + 1 + rangeindex && -1 <= rangeindex && rangeindex < len(s.change.routes) && len(s.change.routes) == old(len(s.change.routes))
+//vc:  set changesConfirmed = result == nil && accepted >= old(accepted) + len(s.change.routes) && (s.change.iptables != "" ==> accepted >= old(accepted) + len(s.change.routes) + 3)
+//vc:  ensures[C09] @nilOnlyIfAllAccepted result == nil ==> changesConfirmed
 //vc:func (*State).cmd
 //vc:  requires[C11] !isCompareRun
+//vc:  set accepted = accepted + 1
+//vc:  ensures[C09] accepted == old(accepted) + 1
+//vc:  ensures[C09] @exitStatusZero lastCmd == "echo $?" && lastOutput == "0\n"
+
+// one reply is read and checked: echo stripped, nothing else printed
+//vc:func (*State).cmd$1
+//vc:  ensures[C09] @replyCheckedEmpty lastRemainder == ""
 //vc:func (*State).findIPTablesRestoreCmd
 //vc:  requires[C11] !isCompareRun
 //vc:func (*State).putScp
